@@ -1,6 +1,6 @@
 #include "recl_common.hpp"
 using namespace rh;
-namespace {
+namespace hx_recl_c {
 #define CFG(NAME, TYPE, LFRC, CYC) {{NAME, LFRC, 0, false, CYC, false}, make_world<TYPE, LFRC>}
 const ReclHarness::Cfg cfgs[] = {
   CFG("lfrc", rc::LFRC, true, 2), CFG("lfrc_tl2", rc::LFRC_TL2, true, 2), CFG("lfrc_pad", rc::LFRC_PAD, true, 2),
